@@ -99,9 +99,6 @@ Lemma Acc_exec_tsteps r l : forall s, Acc s -> Acc (exec_tsteps T r l s).
 Proof. induction l as [|a l IH]; simpl; intros; auto. destruct a; acc. Qed.
 Hint Resolve Acc_exec_tsteps : acc.
 
-Lemma Acc_exec_job j s : Acc s -> Acc (exec_job T j s).
-Proof. unfold exec_job, new_pair_for, new_cap_int. cbv beta iota zeta. acc. Qed.
-
 Lemma Acc_promise_resolve x s : Acc s -> Acc (snd (promise_resolve T x s)).
 Proof. unfold promise_resolve, new_cap_int. cbv beta iota zeta. destruct x; simpl; acc. Qed.
 Lemma Acc_new_cap_int s : Acc s -> Acc (snd (new_cap_int s)).
@@ -121,6 +118,24 @@ Ltac split_nc :=
       assert (HP : Acc (snd (new_cap_int s0))) by (apply Acc_new_cap_int; acc);
       destruct (new_cap_int s0) as [[? ?] ?]; simpl in HP
   end.
+
+Lemma Acc_cres c v s : Acc s -> Acc (cres T c v s). Proof. unfold cres. acc. Qed.
+Lemma Acc_crej c v s : Acc s -> Acc (crej c v s). Proof. unfold crej. acc. Qed.
+Hint Resolve Acc_cres Acc_crej : acc.
+Lemma Acc_async_throw b e s : Acc s -> Acc (async_throw T b e s). Proof. unfold async_throw. acc. Qed.
+Hint Resolve Acc_async_throw : acc.
+Lemma Acc_async_step b s : Acc s -> Acc (async_step T b s).
+Proof. intros H. unfold async_step. destruct (ab_rest b); [acc|]. split_pr. acc. Qed.
+Hint Resolve Acc_async_step : acc.
+Lemma Acc_exec_finally sc ful arg cap s : Acc s -> Acc (exec_finally T sc ful arg cap s).
+Proof.
+  intros H. unfold exec_finally. cbv beta zeta.
+  destruct (s_ret sc); try solve [acc]; split_pr; split_nc; acc.
+Qed.
+Hint Resolve Acc_exec_finally : acc.
+
+Lemma Acc_exec_job j s : Acc s -> Acc (exec_job T j s).
+Proof. unfold exec_job, new_pair_for, new_cap_int. cbv beta iota zeta. acc. Qed.
 
 Lemma Acc_comb_elem k cap c s x : Acc s -> Acc (comb_elem T k cap c s x).
 Proof.
